@@ -27,6 +27,136 @@ HARNESS = os.path.join(ROOT, "harness")
 REPO = "/repo"
 NSHARDS = int(os.environ.get("VERIF_SHARDS", "16"))
 ENV_BASE = dict(os.environ, CARGO_NET_OFFLINE="true", CARGO_TERM_COLOR="never")
+DICT = ([], [], [])
+
+# ---------------------------------------------------------------------------------------------
+# G-dict: literals harvested from the source under test (DESIGN 3.5). A branch guarded by a constant
+# the generators have no reason to produce is not driven; the constants the code itself compares
+# against are the cheapest source of such values, so every integer / short string literal of
+# /repo/src (test modules excluded) is offered to the generators. Nothing here is an oracle.
+
+_INT_RE = re.compile(r"(?<![A-Za-z0-9_.])(0x[0-9a-fA-F_]+|0b[01_]+|0o[0-7_]+|[0-9][0-9_]*)(?:_?[ui](?:8|16|32|64|128|size))?(?![A-Za-z0-9_]|\.[0-9])")
+_STR_RE = re.compile(r'b?"((?:[^"\\]|\\.)*)"')
+_CHR_RE = re.compile(r"b'((?:[^'\\]|\\.)+)'")
+
+
+def _lit_int(s):
+    s = s.replace("_", "")
+    try:
+        return int(s, 0) if s[:2].lower() in ("0x", "0b", "0o") else int(s)
+    except ValueError:
+        return None
+
+
+def _unescape(s):
+    out = bytearray()
+    i = 0
+    while i < len(s):
+        c = s[i]
+        if c == "\\" and i + 1 < len(s):
+            n = s[i + 1]
+            if n == "x" and i + 3 < len(s):
+                try:
+                    out.append(int(s[i + 2:i + 4], 16))
+                    i += 4
+                    continue
+                except ValueError:
+                    pass
+            m = {"n": 10, "r": 13, "t": 9, "0": 0, "\\": 92, '"': 34, "'": 39}.get(n)
+            if m is not None:
+                out.append(m)
+                i += 2
+                continue
+        out += c.encode("utf-8")
+        i += 1
+    return bytes(out)
+
+
+def _strip_cfg_test(t):
+    """Remove every item that follows a #[cfg(test)] attribute (a `mod x;` line or a braced block)."""
+    while True:
+        i = t.find("#[cfg(test)]")
+        if i < 0:
+            return t
+        j = i + len("#[cfg(test)]")
+        semi, brace = t.find(";", j), t.find("{", j)
+        if brace < 0 or (0 <= semi < brace):
+            end = (semi + 1) if semi >= 0 else len(t)
+        else:
+            depth, k = 0, brace
+            while k < len(t):
+                if t[k] == "{":
+                    depth += 1
+                elif t[k] == "}":
+                    depth -= 1
+                    if depth == 0:
+                        break
+                k += 1
+            end = k + 1
+        t = t[:i] + t[end:]
+
+
+def harvest_dict(src=None):
+    """(all integer literals, the 'rare' ones, short string literals) of the code under test."""
+    src = src or os.path.join(REPO, "src")
+    ints, strs = {}, {}
+    for root, dirs, files in os.walk(src):
+        dirs[:] = sorted(d for d in dirs if d != "tests")
+        for f in sorted(files):
+            if not f.endswith(".rs") or f == "tests.rs":
+                continue
+            try:
+                t = open(os.path.join(root, f), encoding="utf-8", errors="replace").read()
+            except OSError:
+                continue
+            t = re.sub(r"//[^\n]*", "", t)
+            t = re.sub(r"/\*.*?\*/", "", t, flags=re.S)
+            t = _strip_cfg_test(t)
+            for m in _STR_RE.finditer(t):
+                b = _unescape(m.group(1))
+                if 1 <= len(b) <= 24 and b"{" not in b:
+                    strs[b] = strs.get(b, 0) + 1
+            for m in _CHR_RE.finditer(t):
+                b = _unescape(m.group(1))
+                if len(b) == 1:
+                    ints[b[0]] = ints.get(b[0], 0) + 1
+            t2 = _STR_RE.sub('""', t)
+            for m in _INT_RE.finditer(t2):
+                v = _lit_int(m.group(1))
+                if v is not None and 0 <= v < 1 << 64:
+                    ints[v] = ints.get(v, 0) + 1
+            # a << b written with literals
+            for m in re.finditer(r"\b(0x[0-9a-fA-F_]+|[0-9][0-9_]*)(?:_?[ui](?:8|16|32|64|size))?\s*<<\s*([0-9]{1,2})\b", t2):
+                a, b = _lit_int(m.group(1)), int(m.group(2))
+                if a is not None and b < 64 and 0 <= (a << b) < 1 << 64:
+                    ints[a << b] = ints.get(a << b, 0) + 1
+            # byte arrays written as [0x12, 0x34, ...] read as big-endian numbers of 2, 4 or 8 octets
+            for m in re.finditer(r"\[\s*((?:(?:0x[0-9a-fA-F]{1,2}|[0-9]{1,3})(?:_?u8)?\s*,\s*){1,7}(?:0x[0-9a-fA-F]{1,2}|[0-9]{1,3})(?:_?u8)?)\s*,?\s*\]", t2):
+                parts = [_lit_int(re.sub(r"_?u8$", "", p.strip())) for p in m.group(1).split(",") if p.strip()]
+                if all(p is not None and p < 256 for p in parts) and len(parts) in (2, 4, 8):
+                    v = int.from_bytes(bytes(parts), "big")
+                    ints[v] = ints.get(v, 0) + 1
+                    strs[bytes(parts)] = strs.get(bytes(parts), 0) + 1
+    allv = sorted(ints)
+    # "rare": everything above the enumerations that the grids already cover exhaustively
+    rare = [v for v in allv if v > 41]
+    if len(rare) > 400:
+        rare = sorted(rare, key=lambda v: (ints[v], v))[:400]
+    sl = sorted(strs, key=lambda b: (strs[b], b))[:100]
+    return allv[:600], sorted(rare), sl
+
+
+def install_dict():
+    if "VP_DICT" in ENV_BASE and os.environ.get("VP_DICT_KEEP"):
+        return
+    try:
+        allv, rare, sl = harvest_dict()
+    except Exception:
+        allv, rare, sl = [], [], []
+    ENV_BASE["VP_DICT"] = ",".join(str(v) for v in rare)
+    ENV_BASE["VP_DICT_STR"] = ",".join(b.hex() for b in sl)
+    return allv, rare, sl
+
 
 # ---------------------------------------------------------------------------------------------
 # builds
@@ -789,6 +919,8 @@ def _check(prop, tier, seed, rundir, t_start):
         "stages": stages,
         "floors_unmet": unmet,
         "reference_selfcheck": selfcheck_line,
+        "source_dictionary": {"what": "integer / short string literals harvested from /repo/src (test modules excluded) and offered to the generators (G-dict); one case in 16 draws half of its integers from it",
+                              "rare_integers": DICT[1][:60], "strings": len(DICT[2]), "all_integer_literals": len(DICT[0])},
         "violation_classes": {sig: merged.sig_counts.get(sig, len(vs)) for sig, vs in classes.items()},
         "known_findings_matched": known_lines,
     }
@@ -1153,6 +1285,8 @@ def main():
         return 2
     os.makedirs(os.path.join(ROOT, "run"), exist_ok=True)
     mode = sys.argv[1]
+    global DICT
+    DICT = install_dict() or ([], [], [])
     try:
         if mode == "setup":
             return setup()
